@@ -176,6 +176,22 @@ def run(ctx):
                                 'the operation-output entry is not recorded under the operation alias constant with ordinal 1'))
 
     rm.replay_idle_clause(ctx, res, 'C03', 'C03.f', 'every exit of play() resets counter / outputs / playback recording (ordinals restart at 1)')
+    rm.interception_flag_clause(ctx, res, 'C03', 'C03.g')
+    # ---- C03.h the helpers that build the operation entry and the keys keep no state between calls
+    ch = res.clause('C03.h', 'R-PROV', 'capture helpers (exception form, key builders) are stateless', floor=2)
+    helpers = [roles.key_builders['output'], roles.key_builders['input']]
+    for n in ast.walk(roles.op_executor.node):
+        if isinstance(n, ast.Call) and isinstance(n.func, ast.Attribute) and roles.cls.lookup(n.func.attr) is not None and \
+                roles.cls.lookup(n.func.attr).is_static and roles.cls.lookup(n.func.attr) not in helpers:
+            helpers.append(roles.cls.lookup(n.func.attr))
+    for h in helpers:
+        bad = rm.stateful_constructs(h)
+        ch.instance('%s keeps no state across calls' % h.qualname, h.qualname, not bad)
+        ch.evaluations += 1
+        for n, what in bad[:2]:
+            res.add(Finding('C03', 'C03.h', 'R-PROV', h.file, h.qualname, getattr(n, 'lineno', h.node.lineno), what,
+                            'a helper on the capture path keeps state between calls (%s): what is captured for one call then depends on earlier '
+                            'calls (e.g. an exception class once found unserializable is degraded for ever)' % what))
     # ---- C03.d
     extractor_agreement(ctx, res, cd, roles, cl)
 
